@@ -740,6 +740,9 @@ func cmdDkg(prop string, args []string) int {
 					if !thorough && len(ids) > 2 && !rng.Chance(map[int]int{3: 45, 4: 12}[len(ids)]) && f.Kind != "vvec-long" {
 						continue
 					}
+					if thorough && len(ids) > 4 && !rng.Chance(map[int]int{5: 30, 6: 12, 7: 6}[len(ids)]) {
+						continue
+					}
 					acctN++
 					init := ids[rng.Intn(len(ids))]
 					r := &dkgRun{IDs: ids, Initiator: init, N: n, T: t, Acct: fmt.Sprintf("Wallet 3/f%d", acctN), Fault: f}
